@@ -44,10 +44,11 @@ R1 = {
     ],
 }
 PROPS = {
-    "C%02d" % i: dict(bin="c%02d" % i, r1=R1.get("C%02d" % i, []), assumptions=COMMON_ASSUMPTIONS) for i in range(2, 21)
+    "C%02d" % i: dict(bin="c%02d" % i, r1=R1.get("C%02d" % i, []), assumptions=COMMON_ASSUMPTIONS) for i in range(1, 21)
 }
 
 import gen_c08
 PROPS["C08"]["pre"] = gen_c08.pre
 PROPS["C11"]["custom"] = "check_c11"
 PROPS["C19"]["selftest_skip_ops"] = ["rmod"]   # a single modular draw is only range-constrained (any v < m is admissible)
+PROPS["C01"]["custom"] = "check_c01"
